@@ -1227,6 +1227,37 @@ impl IndexManager {
         }
     }
 
+    /// `search_both_sections` on a free-standing index file (sorted section + update section
+    /// produced by appending `updates` in order), without going through the bucket map.
+    pub fn verif_search_both(
+        sorted: Vec<IndexEntry>,
+        updates: Vec<UpdateEntry>,
+        search_key: &[u8; 9],
+    ) -> Option<IndexEntry> {
+        let mut update_section = UpdateSection::new();
+        for u in updates {
+            update_section.append(u);
+        }
+        let file = IndexFile {
+            header: IndexHeader {
+                data_size: 16,
+                data_hash: 0,
+                version: 7,
+                bucket: 0,
+                unused: 0,
+                length_size: 4,
+                location_size: 5,
+                key_size: 9,
+                segment_bits: 30,
+            },
+            entries: sorted,
+            update_section,
+        };
+        let r = Self::search_both_sections(&file, search_key);
+        std::mem::forget(file);
+        r
+    }
+
     /// `(sorted length, update-section length, sorted section strictly ascending)` of a bucket.
     pub fn verif_bucket_shape(&self, bucket: u8) -> Option<(usize, usize, bool)> {
         self.indices.get(&bucket).map(|index| {
